@@ -250,4 +250,3 @@ impl<T: LuaAstNode> LuaAstPtr<T> {
         }
     }
 }
-
